@@ -399,11 +399,12 @@ func (c *Config) validateLogging() error {
 	}
 
 	validLogFormats := map[string]bool{
+		"text":    true,
 		"json":    true,
 		"console": true,
 	}
 	if c.Logging.Format != "" && !validLogFormats[c.Logging.Format] {
-		return fmt.Errorf("invalid log format: %s (valid: json, console)", c.Logging.Format)
+		return fmt.Errorf("invalid log format: %s (valid: text, json, console)", c.Logging.Format)
 	}
 	return nil
 }
